@@ -449,6 +449,7 @@ def step (s : St) (toks : List String) : IO (St × Bool) := do
         | some k, some op => out (crashOp s w k op)
         | _, _ => bad
       | ["null"] => IO.println nullLine; return (s, false)
+      | ["close0"] => IO.println "ok"; return (s, false)   -- descriptor numbers are not part of the model: which number an open returns does not matter
       | "fail" :: fs :: optoks =>
         match parseFaults fs, parseOp optoks with
         | some fs, some op => out (failOp s w op fs)
